@@ -27,13 +27,18 @@ type input struct {
 	Data  []int  `json:"data"` // the line, the datagram, or the request body
 
 	// dgram
-	LogBad bool `json:"logbad,omitempty"` // bad-line logging enabled (rate limit off)
+	LogBad bool  `json:"logbad,omitempty"` // bad-line logging enabled (rate limit off)
+	Cuts   []int `json:"cuts,omitempty"`   // data is cut at these offsets into successive datagrams
+	Batch  bool  `json:"batch,omitempty"`  // all datagrams in one batch (otherwise one batch each)
 	// http
 	Ep       string `json:"ep,omitempty"`       // raw | event
 	Enc      string `json:"enc,omitempty"`      // Content-Encoding header value
 	NoEnc    bool   `json:"noenc,omitempty"`    // header absent
 	ReadFail string `json:"readfail,omitempty"` // "" | short (declared length > bytes sent) | badchunk
 }
+
+// fatalMark in a case's monitors: the implementation is wedged, stop the run after this case.
+const fatalMark = "\x00fatal"
 
 func main() {
 	logrus.SetOutput(io.Discard)
@@ -47,17 +52,43 @@ func main() {
 			httpr.close()
 		}
 	}()
+	emit := func(c hlib.Case) {
+		fatal := false
+		for i, m := range c.Monitors {
+			if m == fatalMark {
+				fatal = true
+				c.Monitors = append(c.Monitors[:i], c.Monitors[i+1:]...)
+				break
+			}
+		}
+		em.Emit(c)
+		if fatal {
+			// a goroutine of the implementation is spinning or blocked for good: the case is
+			// reported (monitor), later cases would only measure the damage
+			em.Close()
+			fmt.Fprintln(os.Stderr, "c03: implementation wedged, stopping after case", c.Class)
+			os.Exit(0)
+		}
+	}
 	runOne := func(in input) {
+		// announce the input: if the implementation kills the whole process (fatal error, stack
+		// overflow) the driver reports the tail of stderr as the crashing case
+		if b, err := json.Marshal(in); err == nil {
+			if len(b) > 1500 {
+				b = append(b[:1500], []byte("...(truncated)")...)
+			}
+			fmt.Fprintf(os.Stderr, "c03: next input %s\n", b)
+		}
 		switch in.Kind {
 		case "lex":
-			em.Emit(lexr.run(in))
+			emit(lexr.run(in))
 		case "dgram":
-			em.Emit(runDgram(in))
+			emit(runDgram(in))
 		case "http":
 			if httpr == nil {
 				httpr = newHTTPRunner()
 			}
-			em.Emit(httpr.run(in))
+			emit(httpr.run(in))
 		default:
 			fmt.Fprintln(os.Stderr, "unknown case kind", in.Kind)
 			os.Exit(2)
